@@ -23,6 +23,10 @@ enum Kind {
     OtherPack,
     /// the file is present under another name, the recorded name is absent
     Renamed,
+    /// the recorded name is a symbolic link whose target does not exist
+    DanglingSymlink,
+    /// the recorded name is a symbolic link to a different valid content pack
+    SymlinkToOtherPack,
 }
 
 #[derive(Clone, Copy, Debug, PartialEq, Eq)]
@@ -77,17 +81,17 @@ impl Case {
 fn containers(seed: u64, tier: Tier) -> Vec<(String, Logical)> {
     let mut out = vec![];
     let packs: &[u16] = match tier {
-        Tier::Quick => &[1, 2, 3],
+        Tier::Quick => &[1, 2, 3, 4],
         Tier::Thorough => &[1, 2, 3, 4, 5],
     };
     let mut k = 0;
     // thorough: several generations of every container shape
-    let generations = if tier == Tier::Quick { 1 } else { 6 };
+    let generations = if tier == Tier::Quick { 3 } else { 8 };
     for generation in 0..generations {
     for &p in packs {
         for comp in [Comp::None, Comp::Zstd(3), Comp::Lz4(3), Comp::Lzma(3)] {
             let suffix = if generation == 0 { String::new() } else { format!("-g{generation}") };
-            if tier == Tier::Quick && p == 3 && !matches!(comp, Comp::None | Comp::Zstd(_)) {
+            if tier == Tier::Quick && p >= 3 && !matches!(comp, Comp::None | Comp::Zstd(_)) {
                 continue;
             }
             let mut rng = Rng::derive(seed, "c11-container", k);
@@ -224,7 +228,7 @@ fn cases_for(model: &gen::Model, seed: u64) -> Vec<Case> {
         if subset & absent_mask != 0 {
             continue;
         }
-        for kind in [Kind::Removed, Kind::Directory, Kind::OtherPack, Kind::Renamed] {
+        for kind in [Kind::Removed, Kind::Directory, Kind::OtherPack, Kind::Renamed, Kind::DanglingSymlink, Kind::SymlinkToOtherPack] {
             for instant in [Instant::BeforeOpen, Instant::AfterOpen, Instant::AfterFirstAccess] {
                 out.push(Case {
                     subset,
@@ -307,6 +311,14 @@ fn apply_fault(dir: &Path, img: &Image, case: &Case) {
                 Kind::Removed | Kind::Renamed => {}
                 Kind::Directory => std::fs::create_dir_all(&path).unwrap(),
                 Kind::OtherPack => std::fs::write(&path, &img.foreign).unwrap(),
+                Kind::DanglingSymlink => {
+                    let _ = std::os::unix::fs::symlink(dir.join("no-such-target"), &path);
+                }
+                Kind::SymlinkToOtherPack => {
+                    let t = dir.join(format!("{name}.foreign"));
+                    std::fs::write(&t, &img.foreign).unwrap();
+                    let _ = std::os::unix::fs::symlink(&t, &path);
+                }
             }
             continue;
         }
@@ -321,7 +333,11 @@ fn apply_fault(dir: &Path, img: &Image, case: &Case) {
             Kind::Renamed => {
                 let _ = std::fs::rename(&path, dir.join(format!("{name}.moved")));
             }
-            Kind::OtherPack => {
+            Kind::DanglingSymlink => {
+                let _ = std::fs::remove_file(&path);
+                let _ = std::os::unix::fs::symlink(dir.join("no-such-target"), &path);
+            }
+            Kind::OtherPack | Kind::SymlinkToOtherPack => {
                 // another pack of this container when there is one that stays available, else a foreign one
                 let other = img.model.pack_ids().into_iter().find(|q| *q != p && case.subset & (1 << (q - 1)) == 0);
                 let bytes = match other {
@@ -337,7 +353,14 @@ fn apply_fault(dir: &Path, img: &Image, case: &Case) {
                 // replace atomically (new inode) so that an already opened handle keeps the old file
                 let tmp = dir.join(format!("{name}.new"));
                 std::fs::write(&tmp, bytes).unwrap();
-                std::fs::rename(&tmp, &path).unwrap();
+                if case.kind == Kind::SymlinkToOtherPack {
+                    let link = dir.join(format!("{name}.lnk"));
+                    let _ = std::fs::remove_file(&link);
+                    std::os::unix::fs::symlink(&tmp, &link).unwrap();
+                    std::fs::rename(&link, &path).unwrap();
+                } else {
+                    std::fs::rename(&tmp, &path).unwrap();
+                }
             }
         }
     }
